@@ -121,6 +121,23 @@ func (s *Server) cmdSetHook(msg *Message) (
 		return NOMessage, d, errors.New("missing FENCE argument")
 	}
 	args.cmd = cmdlc
+	if len(args.shaRefs) > 0 {
+		// A hook outlives the scripts loaded into this process: log and keep
+		// the command with the text of the script instead of its digest, or
+		// a restarted server and every follower fail on "sha not found".
+		nargs := append([]string{}, msg.Args...)
+		for _, fromEnd := range args.shaRefs {
+			i := len(nargs) - fromEnd
+			if i >= 0 && i+1 < len(nargs) &&
+				strings.ToLower(nargs[i]) == "whereevalsha" {
+				if source, ok := s.luascripts.Source(nargs[i+1]); ok {
+					nargs[i], nargs[i+1] = "WHEREEVAL", source
+				}
+			}
+		}
+		msg.Args = nargs
+		commandvs = nargs[len(nargs)-len(commandvs):]
+	}
 	cmsg := &Message{}
 	*cmsg = *msg
 	cmsg.Args = make([]string, len(commandvs))
